@@ -59,6 +59,7 @@ func ZzC02U3L3() { zzC02(zzU3(), 3) }
 func ZzC02U4L3() { zzC02(zzU4(), 3) }
 func ZzC02U3L4() { zzC02(zzU3(), 4) }
 func ZzC02U4L4() { zzC02(zzU4(), 4) }
+func ZzC02U4P3L1() { zzC02P(zzU4(), zzU4Preamble(), 1) }
 func ZzC02U1L4() { zzC02(zzU1(), 4) }
 func ZzC02U2L4() { zzC02(zzU2(), 4) }
 func ZzC02U5L4() { zzC02(zzU5(), 4) }
